@@ -468,7 +468,8 @@ def store_subscript(I, obj, idx, v, node):
     from sa.interp import AbsRaise
     cidx = concrete(idx)
     if isinstance(obj, ADict):
-        I.effect('item-store', node, {'obj': obj, 'key': idx, 'value': v})
+        I.effect('item-store', node, {'obj': obj, 'key': idx, 'value': v,
+                                      'was_absent': is_concrete(idx) and (cidx in obj.absent or (not obj.open and cidx not in obj.items))})
         if is_concrete(idx):
             obj.items[cidx] = v
             obj.absent.discard(cidx)
